@@ -121,9 +121,10 @@ Theorem C04_rtcp_roundtrip : forall c tx rx pkt,
     unprotect_rtcp c rx out = (Ok pkt, bump_rtcp_index rx (c_rtcp_index tx + 1)).
 Proof. exact rtcp_roundtrip. Qed.
 
-(* ---- per-SSRC independence in SrtpSession (no eviction pressure: at most 32 contexts) *)
+(* ---- per-SSRC independence in SrtpSession (no eviction pressure: at most 32 contexts once the
+   operation's own SSRC is in the table; `slots` counts it) *)
 Theorem C04_ssrc_frame_unprotect : forall c s now sp b,
-  zlen (s_rx s) <= SSRC_CONTEXT_HIGH_WATERMARK -> b <> h_ssrc (sp_hdr sp) ->
+  slots (h_ssrc (sp_hdr sp)) (s_rx s) <= SSRC_CONTEXT_HIGH_WATERMARK -> b <> h_ssrc (sp_hdr sp) ->
   lookup b (s_rx (snd (sess_unprotect_rtp c s now sp))) = lookup b (s_rx s) /\
   s_tx (snd (sess_unprotect_rtp c s now sp)) = s_tx s.
 Proof. exact frame_unprotect_rtp. Qed.
@@ -135,7 +136,7 @@ Theorem C04_ssrc_frame_protect : forall c s now p b,
 Proof. exact frame_protect_rtp. Qed.
 
 Theorem C04_ssrc_frame_unprotect_rtcp : forall c s now pkt b,
-  zlen (s_rx s) <= SSRC_CONTEXT_HIGH_WATERMARK -> b <> rtcp_ssrc pkt ->
+  slots (rtcp_ssrc pkt) (s_rx s) <= SSRC_CONTEXT_HIGH_WATERMARK -> b <> rtcp_ssrc pkt ->
   lookup b (s_rx (snd (sess_unprotect_rtcp c s now pkt))) = lookup b (s_rx s) /\
   s_tx (snd (sess_unprotect_rtcp c s now pkt)) = s_tx s.
 Proof. exact frame_unprotect_rtcp. Qed.
@@ -148,7 +149,7 @@ Proof. exact frame_protect_rtcp. Qed.
 
 (* on its own SSRC a session operation is the context operation on the stored (else fresh) context *)
 Theorem C04_session_is_context_rx : forall c s now sp x,
-  zlen (s_rx s) <= SSRC_CONTEXT_HIGH_WATERMARK ->
+  slots (h_ssrc (sp_hdr sp)) (s_rx s) <= SSRC_CONTEXT_HIGH_WATERMARK ->
   effective c (s_prof s) (s_rxk s) (h_ssrc (sp_hdr sp)) (s_rx s) = Some x ->
   fst (sess_unprotect_rtp c s now sp) = fst (unprotect c x sp) /\
   effective c (s_prof s) (s_rxk s) (h_ssrc (sp_hdr sp)) (s_rx (snd (sess_unprotect_rtp c s now sp))) =
@@ -179,17 +180,32 @@ Theorem C04_key_split_accepted : forall c ssrc role code mat,
   ctx_new c ssrc (setup_profile code) (fst (snd (key_split role code mat))) (snd (snd (key_split role code mat))) <> None.
 Proof. exact key_split_accepted. Qed.
 
-(* ---- listed finding F23 (model witness; the statements above assume no eviction pressure):
-   after 33 rejected forgeries with fresh SSRCs, a genuine context idle for 60 s is evicted with its
-   rollover counter and the stream's next packet is refused *)
+(* whole histories: for EVERY list of protect / unprotect operations (SRTP and SRTCP, any SSRCs, any
+   interleaving, any times) that runs without eviction pressure (`calm`: decidable, the complement
+   of the listed finding F23), and every (direction, SSRC) pair: the outputs the session produced
+   for that pair and the pair's context afterwards are exactly those of ONE SrtpContext run over the
+   pair's sub-history -- a session is the product of independent per-SSRC contexts, so everything
+   proved about a context (round trip, tracking, histories) holds per SSRC inside a session *)
+Theorem C04_session_is_product : forall c l s k x,
+  calm c s l -> eff c s k = Some x ->
+  sub_outs k (fst (sess_run c s l)) = fst (ctx_run c x (sub_ops k l)) /\
+  eff c (snd (sess_run c s l)) k = Some (snd (ctx_run c x (sub_ops k l))).
+Proof. exact session_is_product. Qed.
+
+(* ---- listed finding F23, what remains after the receive-side fix (model witness; the statements
+   above assume `calm`): forged SSRC floods no longer create anything (33 rejected forgeries leave
+   the session exactly as it was), but 32 further AUTHENTICATED SSRCs put 33 contexts into the table
+   and a genuine context idle for 60 s is evicted with its rollover counter; the stream's next
+   packet is refused (31 further SSRCs, or 59 s, lose nothing) *)
 Theorem C04_eviction_refuted :
   crypto_ok toy /\
   snd w_state = [true; true; true; true] /\
   w_next 61 (snd (fst w_state)) = true /\
   snd (w_flood (snd (fst w_state)) 61 1000 33) = true /\
-  w_next 61 (fst (w_flood (snd (fst w_state)) 61 1000 33)) = false /\
-  w_next 61 (fst (w_flood (snd (fst w_state)) 61 1000 32)) = true /\
-  w_next 59 (fst (w_flood (snd (fst w_state)) 59 1000 33)) = true.
+  fst (w_flood (snd (fst w_state)) 61 1000 33) = snd (fst w_state) /\
+  w_next 61 (w_auth_flood w_tx2 (snd (fst w_state)) 61 2000 32) = false /\
+  w_next 61 (w_auth_flood w_tx2 (snd (fst w_state)) 61 2000 31) = true /\
+  w_next 59 (w_auth_flood w_tx2 (snd (fst w_state)) 59 2000 32) = true.
 Proof. exact eviction_witness. Qed.
 
 (* the same on the sending side: 33 further SSRCs and 60 s of silence evict a sending context; the
